@@ -9,12 +9,22 @@ import (
 	vestingtypes "github.com/cosmos/cosmos-sdk/x/auth/vesting/types"
 )
 
-// CheckIfAccountIsSuitableForDestroying checking the account is suitable for destroy (EVM) or not.
+// CheckIfAccountIsSuitableForDestroying checking the account is suitable for destroy (EVM) or not,
+// using the wall clock as the reference time for vesting expiry.
+//
+// Deprecated: consensus code must not depend on the wall clock,
+// use CheckIfAccountIsSuitableForDestroyingAt with the block time instead.
+func CheckIfAccountIsSuitableForDestroying(account sdk.AccountI) (destroyable bool, reason string) {
+	return CheckIfAccountIsSuitableForDestroyingAt(account, time.Now().UTC())
+}
+
+// CheckIfAccountIsSuitableForDestroyingAt checking the account is suitable for destroy (EVM) or not,
+// at the given reference time (the block time when called during state transition).
 //
 // It returns false and the reason if the account:
 //  1. Is a module account.
-//  2. Is a vesting account which still not expired.
-func CheckIfAccountIsSuitableForDestroying(account sdk.AccountI) (destroyable bool, reason string) {
+//  2. Is a vesting account which still not expired at the reference time.
+func CheckIfAccountIsSuitableForDestroyingAt(account sdk.AccountI, at time.Time) (destroyable bool, reason string) {
 	if account == nil || reflect.ValueOf(account).IsNil() {
 		panic("account is nil")
 	}
@@ -25,14 +35,14 @@ func CheckIfAccountIsSuitableForDestroying(account sdk.AccountI) (destroyable bo
 	}
 
 	if vestingAcc, ok := account.(*vestingtypes.BaseVestingAccount); ok {
-		if vestingAcc.GetEndTime() > time.Now().UTC().Unix() {
+		if vestingAcc.GetEndTime() > at.Unix() {
 			reason = "unexpired vesting account is not suitable for destroying"
 			return
 		}
 	}
 
 	if vestingAcc, ok := account.(vesting.VestingAccount); ok {
-		if vestingAcc.GetEndTime() > time.Now().UTC().Unix() {
+		if vestingAcc.GetEndTime() > at.Unix() {
 			reason = "unexpired vesting account is not suitable for destroying"
 			return
 		}
